@@ -210,7 +210,24 @@ class Lit:
         if isinstance(n, ast.Call):
             if isinstance(n.func, ast.Name) and n.func.id in self.PURE and not n.keywords:
                 return self.PURE[n.func.id](*[self.ev(a) for a in n.args])
-            if isinstance(n.func, ast.Attribute) and n.func.attr in ('format', 'join', 'upper', 'lower', 'count', 'items', 'keys', 'values', 'get', 'split', 'strip', 'replace', 'startswith', 'endswith'):
+            if isinstance(n.func, ast.Attribute) and isinstance(n.func.value, ast.Name) and n.func.value.id == 're' and n.func.value.id not in self.env \
+               and n.func.attr in ('split', 'sub', 'match', 'fullmatch', 'findall', 'search') and not n.keywords:
+                import re as _re
+                args = [self.ev(a) for a in n.args]
+                if all(isinstance(a, (str, int)) for a in args):
+                    return getattr(_re, n.func.attr)(*args)      # standard-library primitive on literal arguments
+            if isinstance(n.func, ast.Name) and n.func.id == 'eval' and len(n.args) == 1:
+                src = self.ev(n.args[0])
+                if isinstance(src, str):
+                    tree = ast.parse(src, mode='eval').body
+                    for x in ast.walk(tree):
+                        if not isinstance(x, (ast.BinOp, ast.UnaryOp, ast.Constant, ast.operator, ast.unaryop, ast.expr_context)):
+                            raise NotLiteral('eval of non-arithmetic text')
+                    try:
+                        return Lit(self.repo, self.modname).ev(tree)
+                    except ZeroDivisionError:
+                        raise ValueError('division by zero')
+            if isinstance(n.func, ast.Attribute) and n.func.attr in ('format', 'join', 'upper', 'lower', 'count', 'items', 'keys', 'values', 'get', 'split', 'strip', 'replace', 'startswith', 'endswith', 'isspace', 'isdigit', 'partition', 'rpartition', 'index', 'find'):
                 base = self.ev(n.func.value)
                 if isinstance(base, (str, dict, tuple, list)):
                     args = [self.ev(a) for a in n.args]
@@ -313,9 +330,10 @@ class ModuleFold:
             try:
                 for s in st.body:
                     self.stmt(s)
-            except (KeyError, IndexError) as e:
+            except (KeyError, IndexError, ValueError, TypeError) as e:
                 for h in st.handlers:
-                    if h.type is None or ast.unparse(h.type) in (type(e).__name__, 'Exception', 'LookupError'):
+                    hn = ast.unparse(h.type) if h.type is not None else ''
+                    if h.type is None or type(e).__name__ in hn or hn in ('Exception', 'LookupError'):
                         for s in h.body:
                             self.stmt(s)
                         break
@@ -335,6 +353,17 @@ class ModuleFold:
                 self.stmt(s)
         elif isinstance(st, (ast.Pass, ast.Expr)):
             pass
+        elif isinstance(st, ast.Raise):
+            name = ast.unparse(st.exc).split('(')[0] if st.exc is not None else 'ValueError'
+            raise {'ValueError': ValueError, 'KeyError': KeyError, 'TypeError': TypeError, 'IndexError': IndexError}.get(name, ValueError)('raised by folded code')
+        elif isinstance(st, ast.While):
+            n = 0
+            while self.lit().ev(st.test):
+                for s in st.body:
+                    self.stmt(s)
+                n += 1
+                if n > 100000:
+                    raise NotLiteral('loop bound')
         else:
             raise NotLiteral('statement ' + type(st).__name__)
 
@@ -352,6 +381,8 @@ class ModuleFold:
         elif isinstance(tg, (ast.Tuple, ast.List)):
             for t, x in zip(tg.elts, v):
                 self.store(t, x)
+        elif isinstance(tg, ast.Attribute) and isinstance(tg.value, ast.Name) and tg.value.id == 'self' and getattr(self, 'attrs', None) is not None:
+            self.attrs[tg.attr] = v
         else:
             raise NotLiteral('store target')
 
@@ -391,6 +422,15 @@ class ModFolder:
                 return ('f', n.id)
             if isinstance(n, ast.Name) and n.id in self.extra:
                 return self.extra[n.id]
+            if isinstance(n, ast.Name) and n.id in self.mod.imports:
+                src, orig = self.mod.imports[n.id]
+                m2 = '__init__' if src == 'skoolkit' else (src.split('.', 1)[1] if src.startswith('skoolkit.') else None)
+                if m2 is not None:
+                    try:
+                        if orig in self.repo.mod(m2).funcs:
+                            return ('fx', m2, orig)
+                    except FactError:
+                        pass
             if isinstance(n, ast.Call) and isinstance(n.func, ast.Name):
                 try:
                     target = lit.ev(n.func)
@@ -398,6 +438,8 @@ class ModFolder:
                     return None
                 if isinstance(target, tuple) and len(target) == 2 and target[0] == 'f':
                     return self.call(target[1], [lit.ev(a) for a in n.args])
+                if isinstance(target, tuple) and len(target) == 3 and target[0] == 'fx':
+                    return ModFolder(self.repo, target[1]).call(target[2], [lit.ev(a) for a in n.args])
             return None
         f.wants_lit = True
         return f
@@ -411,4 +453,59 @@ class ModFolder:
             if p not in env:
                 env[p] = Lit(self.repo, self.modname).ev(d)
         ff = FuncFold(self.repo, self.modname, {}, self.hook())
+        return ff.call(fn, env)
+
+
+class ObjFolder:
+    """Fold methods of one class on a model object whose attributes live in `attrs` (pure methods over literals)."""
+    def __init__(self, repo, modname, clsname, attrs=None, extra_hook=None):
+        self.repo, self.modname, self.clsname = repo, modname, clsname
+        self.mod = repo.mod(modname)
+        self.methods = self.mod.methods(clsname)
+        self.attrs = dict(attrs or {})
+        self.extra_hook = extra_hook
+
+    def hook(self):
+        def f(n, lit):
+            if self.extra_hook is not None:
+                v = self.extra_hook(n, lit, self)
+                if v is not None:
+                    return v
+            if isinstance(n, ast.Attribute) and isinstance(n.value, ast.Name) and n.value.id == 'self':
+                if n.attr in self.attrs:
+                    return self.attrs[n.attr]
+                if n.attr in self.methods:
+                    return ('m', n.attr)
+                return None
+            if isinstance(n, ast.Call):
+                fn = n.func
+                target = None
+                if isinstance(fn, ast.Attribute) and isinstance(fn.value, ast.Name) and fn.value.id == 'self' and fn.attr in self.methods:
+                    target = fn.attr
+                elif isinstance(fn, ast.Name):
+                    try:
+                        t = lit.ev(fn)
+                        if isinstance(t, tuple) and len(t) == 2 and t[0] == 'm':
+                            target = t[1]
+                    except NotLiteral:
+                        pass
+                if target is not None:
+                    args = [lit.ev(a) for a in n.args]
+                    kw = {k.arg: lit.ev(k.value) for k in n.keywords}
+                    return self.call(target, args, kw)
+            return None
+        f.wants_lit = True
+        return f
+
+    def call(self, name, args, kw=None):
+        fn = self.methods[name]
+        params = [a.arg for a in fn.args.args][1:]
+        env = dict(zip(params, args))
+        env.update(kw or {})
+        defaults = fn.args.defaults
+        for p, d in zip(params[len(params) - len(defaults):], defaults):
+            if p not in env:
+                env[p] = Lit(self.repo, self.modname).ev(d)
+        ff = FuncFold(self.repo, self.modname, {}, self.hook())
+        ff.attrs = self.attrs
         return ff.call(fn, env)
